@@ -11,17 +11,19 @@ CONSTANTS P,    \* prime modulus of the ambient group Z_P^*, P = kQ+1
           GEN   \* generator of the order-Q subgroup
 
 RECURSIVE PowP(_,_)
-PowP(a,k) == IF k = 0 THEN 1 ELSE (a * PowP(a, k-1)) % P
+PowP(a,k) == IF k = 0 THEN 1
+             ELSE LET h == PowP(a, k \div 2) IN
+                  IF k % 2 = 0 THEN (h * h) % P ELSE (((h * h) % P) * a) % P
 
-\* element value of discrete log x; ExpT[0] = 1 is the identity
-ExpT == [x \in Zq |-> PowP(GEN, x)]
+\* element value of discrete log x; the identity (x = 0) has value 1
+ElemVal(x) == PowP(GEN, x)
 
 U16(v)        == << v \div 256, v % 256 >>
 ScalarBytes(v) == U16(v)
 IdBytes(i)     == U16(i)
 \* the identity (dlog 0) has no encoding: callers test IsIdent first
 IsIdent(x)    == x = 0
-ElemBytes(x)  == U16(ExpT[x])
+ElemBytes(x)  == U16(ElemVal(x))
 
 \* 32 random bytes are modelled as 31 zero bytes followed by a chosen byte
 Rand32(b) == [k \in 1..32 |-> IF k = 32 THEN b ELSE 0]
